@@ -18,8 +18,8 @@ import time
 from pathlib import Path
 from typing import Any, Callable, Dict, List, Optional
 
-VERIF = Path("/verif")
-REPO = Path("/repo")
+VERIF = Path(os.environ.get("VERIF_ROOT", "/verif"))
+REPO = Path(os.environ.get("VERIF_REPO", "/repo"))
 EVIDENCE_DIR = VERIF / "evidence"
 REPLAY_DIR = VERIF / "replays"
 WORK_DIR = VERIF / ".work"
